@@ -3,6 +3,7 @@ use std::{
     cell::RefCell,
     cell::RefMut,
     cmp::Ordering,
+    convert::TryFrom,
     fmt::{self, Debug, Display, Formatter},
     ops::Deref,
     rc::Rc,
@@ -50,7 +51,30 @@ impl<R: RealNumberInternalTrait> Display for Number<R> {
     }
 }
 
+fn gcd(a: i128, b: i128) -> i128 {
+    let (mut a, mut b) = (a.abs(), b.abs());
+    while b != 0 {
+        let t = a % b;
+        a = b;
+        b = t;
+    }
+    a
+}
+
 impl<R: RealNumberInternalTrait> Number<R> {
+    /// The exact number `numerator / denominator` (`denominator` is not 0): in lowest terms
+    /// with a positive denominator, an integer when the denominator is 1, and the nearest
+    /// inexact number when a component does not fit in `i32`.
+    pub fn exact_ratio(numerator: i128, denominator: i128) -> Self {
+        let divisor = gcd(numerator, denominator) * denominator.signum();
+        let (n, d) = (numerator / divisor, denominator / divisor);
+        match (i32::try_from(n), i32::try_from(d)) {
+            (Ok(a), Ok(1)) => Number::Integer(a),
+            (Ok(a), Ok(b)) => Number::Rational(a, b),
+            _ => Number::Real(R::from(n).unwrap() / R::from(d).unwrap()),
+        }
+    }
+
     pub(crate) fn exact_eqv(&self, other: &Self) -> bool {
         match (self, other) {
             (Number::Integer(a), Number::Integer(b)) => a.eq(b),
@@ -140,7 +164,8 @@ impl<R: RealNumberInternalTrait> std::ops::Add<Number<R>> for Number<R> {
             NumberBinaryOperand::Integer(a, b) => Number::Integer(a + b),
             NumberBinaryOperand::Real(a, b) => Number::Real(a + b),
             NumberBinaryOperand::Rational(a1, a2, b1, b2) => {
-                Number::Rational(a1 * b2 + a2 * b1, a2 * b2)
+                let (a1, a2, b1, b2) = (a1 as i128, a2 as i128, b1 as i128, b2 as i128);
+                Number::exact_ratio(a1 * b2 + a2 * b1, a2 * b2)
             }
         }
     }
@@ -153,7 +178,8 @@ impl<R: RealNumberInternalTrait> std::ops::Sub<Number<R>> for Number<R> {
             NumberBinaryOperand::Integer(a, b) => Number::Integer(a - b),
             NumberBinaryOperand::Real(a, b) => Number::Real(a - b),
             NumberBinaryOperand::Rational(a1, a2, b1, b2) => {
-                Number::Rational(a1 * b2 - a2 * b1, a2 * b2)
+                let (a1, a2, b1, b2) = (a1 as i128, a2 as i128, b1 as i128, b2 as i128);
+                Number::exact_ratio(a1 * b2 - a2 * b1, a2 * b2)
             }
         }
     }
@@ -165,7 +191,9 @@ impl<R: RealNumberInternalTrait> std::ops::Mul<Number<R>> for Number<R> {
         match upcast_oprands((self, rhs)) {
             NumberBinaryOperand::Integer(a, b) => Number::Integer(a * b),
             NumberBinaryOperand::Real(a, b) => Number::Real(a * b),
-            NumberBinaryOperand::Rational(a1, a2, b1, b2) => Number::Rational(a1 * b1, a2 * b2),
+            NumberBinaryOperand::Rational(a1, a2, b1, b2) => {
+                Number::exact_ratio(a1 as i128 * b1 as i128, a2 as i128 * b2 as i128)
+            }
         }
     }
 }
@@ -176,17 +204,17 @@ impl<R: RealNumberInternalTrait> std::ops::Div<Number<R>> for Number<R> {
         match upcast_oprands((self, rhs)) {
             NumberBinaryOperand::Integer(a, b) => {
                 check_division_by_zero(b)?;
-                match a % b {
-                    0 => Ok(Number::Integer(a / b)),
-                    _ => Ok(Number::Rational(a, b)),
-                }
+                Ok(Number::exact_ratio(a as i128, b as i128))
             }
             NumberBinaryOperand::Real(a, b) => Ok(Number::Real(a / b)),
             NumberBinaryOperand::Rational(a1, a2, b1, b2) => {
                 check_division_by_zero(b1)?;
                 check_division_by_zero(a2)?;
                 check_division_by_zero(b2)?;
-                Ok(Number::Rational(a1 * b2, a2 * b1))
+                Ok(Number::exact_ratio(
+                    a1 as i128 * b2 as i128,
+                    a2 as i128 * b1 as i128,
+                ))
             }
         }
     }
@@ -197,7 +225,7 @@ impl<R: RealNumberInternalTrait> Number<R> {
         match self {
             Number::Integer(num) => Number::Integer(num.abs()),
             Number::Real(num) => Number::Real(num.abs()),
-            Number::Rational(a, b) => Number::Rational(a.abs(), b.abs()),
+            Number::Rational(a, b) => Number::exact_ratio((a as i128).abs(), (b as i128).abs()),
         }
     }
 
